@@ -540,6 +540,21 @@ for _f in sorted(_glob.glob("/verif/selftest/variants/b4/C*-b4-*.diff")):
     for _p in [_own] + _CROSS4.get(_name, []):
         case(_p, _p + "-agent-" + _name, "benign", "agent refactoring (round 4) " + _name + ": " + _desc, patch="selftest/variants/b4/" + _name + ".diff")
 
+# fifth round: refactorings aimed at the places the round-5 rules look at
+_CROSS5 = {
+    "C05-b5-1": ["C01"], "C05-b5-2": ["C04"], "C06-b5-2": ["C03"], "C09-b5-1": ["C03"], "C17-b5-2": ["C04"],
+}
+for _f in sorted(_glob.glob("/verif/selftest/variants/b5/C*-b5-*.diff")):
+    _name = os.path.basename(_f)[:-5]
+    _own = _name.split("-")[0]
+    _desc = ""
+    try:
+        _desc = (json.load(open(_f[:-5] + ".json")).get("summary") or "")[:140].replace("\n", " ")
+    except Exception:
+        pass
+    for _p in [_own] + _CROSS5.get(_name, []):
+        case(_p, _p + "-agent-" + _name, "benign", "agent refactoring (round 5) " + _name + ": " + _desc, patch="selftest/variants/b5/" + _name + ".diff")
+
 for _f in sorted(_glob.glob("/verif/selftest/variants/b/C*-b*.diff")):
     _name = os.path.basename(_f)[:-5]
     _own = _name.split("-")[0]
